@@ -77,7 +77,7 @@ def gen_plan(seed, index, tier="quick"):
             reqs = [{"kind": "delrec", "pad_to": r.choice([126, 127, 128, 129, 255, 16382, 16383, 16384]),
                      "gap": 0, "delay": 0.0, "waiter": "await", "cancel_after": 0, "cuts": []}
                     for _ in range(n)]
-            return {"format": 1, "prop": "C12", "report_as": PROP, "engine": "conn",
+            return {"format": 1, "prop": PROP, "engine": "conn",
                     "seed": scenario.subseed(seed, PROP, index), "index": index, "mode": "conn",
                     "timeout_ms": 1000, "quirk": False, "corr_start": 0, "bytewise": False,
                     "cluster": {"lat": [0.0001, 0.001], "chunk": "whole"}, "reqs": reqs, "fault": None}
